@@ -2,4 +2,4 @@
 From Coq Require Import List ZArith Bool String Lia.
 Import ListNotations.
 Require Import Nib.C08.Model Nib.C08.Spec.
-Open Scope Z_scope.
+Local Open Scope Z_scope.
